@@ -114,7 +114,8 @@ Print Assumptions C07_check_transfer.
 (* end to end: the booleans the check reads off vm_compute imply that msdm's numbers (ed / ev / nag =
    dictionary posterior, vector posterior, next_agentstate per observation; pd / pv = predictive
    distributions; rw = belief-MDP reward) are within the tolerance of the real-valued Bayes quantities;
-   within t x y := |x - y| <= t + t*|y| *)
+   within t x y := |x - y| <= t*|y| (purely relative: posteriors of very rare observations are ratios of
+   tiny numbers), within_abs t x y := |x - y| <= t + t*|y| (the signed reward sum) *)
 Theorem C07_checked_outputs_are_bayes :
   forall nS nA nO P Rw ab ini g Obl tol bl a ed ev nag pd pv bn rw c,
   @wfpb Q NumQ (mQ nS nA nO P Rw ab ini g Obl) = true ->
@@ -131,12 +132,12 @@ Theorem C07_checked_outputs_are_bayes :
         within t (lookup (nth o (mapQdd ed) []) ns) (bayes m b a o ns) /\
         within t (untab (nth o (mapQ2 nag) []) ns) (bayes m b a o ns)) /\
      (Zm m b a o = 0 ->
-        Rabs (untab (nth o (mapQ2 ev) []) ns) <= t /\
+        untab (nth o (mapQ2 ev) []) ns = 0 /\
         nth o (mapQdd ed) [] = [] /\
-        Rabs (untab (nth o (mapQ2 nag) []) ns) <= t)) /\
+        untab (nth o (mapQ2 nag) []) ns = 0)) /\
   (forall o, (o < nO)%nat ->
      within t (untab (mapQ1 pv) o) (Zm m b a o) /\ within t (lookup (mapQd pd) o) (Zm m b a o)) /\
-  within t (Q2R rw)
+  within_abs t (Q2R rw)
          (sumf nS (fun s => sumf nS (fun ns => b s * MDP.P (base m) s a ns * MDP.Rw (base m) s a ns))).
 Proof. exact main_checked. Qed.
 Print Assumptions C07_checked_outputs_are_bayes.
